@@ -14,6 +14,10 @@ Inductive style := Unknown | Title | Lower | Upper.
 (* error values: 1 = ErrNamingFormat, 2 = fmt.Errorf("意外的格式：%s", flag) *)
 Definition err_naming : nat := 1.
 Definition err_style : nat := 2.
+Definition err_config : nat := 3.    (* config.validate: errors.New("缺少配置项 - namingFormat") *)
+
+(* config.go:8 DefaultFormat = "godesigner" *)
+Definition default_format : str := [103; 111; 100; 101; 115; 105; 103; 110; 101; 114].
 
 (* format.go:79-87 upperASCII: bytewise, 'a'..'z' only *)
 Definition upper_ascii (s : str) : str := map ascii_upper s.
@@ -162,4 +166,16 @@ Section WithUnicode.
              if negb (latin1_is_upper b) && negb (latin1_is_lower b) then Ok s
              else Ok (encode_rune (latin1_to_lower b) ++ t)   (* string(unicode.ToLower(r)) + s.source[1:] *)
          end.
+
+  (* ===================== config/config.go ===================== *)
+  (* config.go:20-29 NewConfig + config.go:31-37 validate: only the EMPTY template becomes
+     DefaultFormat; the template is stored verbatim; error iff strings.TrimSpace(...) is empty.
+     (Go returns the non-nil cfg together with the error; callers test the error.) *)
+  Definition new_config (format : str) : result str :=
+    let format := match format with [] => default_format | _ => format end in
+    if is_empty_or_space U format then Err err_config else Ok format.
+
+  (* the generator's path: cfg, err := NewConfig(t); FileNamingFormat(cfg.NamingFormat, content) *)
+  Definition configured_format (t content : str) : result str :=
+    bind (new_config t) (fun f => file_naming_format f content).
 End WithUnicode.
